@@ -2,6 +2,7 @@ package main
 
 import (
 	"go/token"
+	"os"
 	"strings"
 
 	"golang.org/x/tools/go/ssa"
@@ -11,10 +12,10 @@ func init() {
 	register(&propDef{
 		ID:      "C13",
 		Level:   "other",
-		Explain: "Redirect routes, decided structurally: (S1) no store to a route.Target (incl. its RedirectURL and the url.URL behind it) reachable from a per-request entry unless the target object is a per-request copy — the 'under any number of simultaneous requests' clause, decided for all schedules by the shared-state engine; (G1) in ServeHTTP the redirect answer sits behind both gates and the lookup, uses Target.RedirectURL/RedirectCode, and no upstream-contact site is reachable after it; (C1) interval analysis of Target.RedirectCode in addTarget: at every exit the code is in {0} ∪ [300,399] on all paths, including the strconv.Atoi error edge (Atoi returns the clamped value on range errors); (P1) in BuildRedirectURL the $path/$host replacements derive from the requestURL parameter, strip is applied before prepend, and the request query is copied only on the 'template has no query' edge; (L1) in Table.Lookup the self-redirect skip edge contributes nil to the result so a skipped redirect cannot be returned. (L2) the self-redirect test compares scheme, full host:port and path. (E2) Table.Lookup hands BuildRedirectURL the request URL itself or a copy carrying RawPath; Not decided: the text of the Location for each template form (string contents, e.g. %2F with https://$host$path).",
+		Explain: "Redirect routes, decided structurally; sites are found by ROLE in the region of the exported entry points (ServeHTTP, Table.Lookup, BuildRedirectURL), not by the name of the function that contains them. (S1) no store to a route.Target (incl. its RedirectURL and the url.URL behind it) reachable from a per-request entry unless the target object is a per-request copy — the 'under any number of simultaneous requests' clause, decided for all schedules by the shared-state engine; (G1) path-sensitive abstract interpretation of ServeHTTP and the repository helpers it calls (state: RedirectCode zero/non-zero, RedirectURL nil/non-nil, access gate passed, auth gate passed, redirect answered; helpers are entered with the caller's state and their boolean verdict is correlated with the states at their returns): the redirect answer (http.Redirect / http.RedirectHandler(..).ServeHTTP) is written only where RedirectCode != 0 is established and both gates are passed, carries Target.RedirectURL/RedirectCode, and every upstream-contact site is reached only in states 'not a redirect target' and never after the answer; (C1) interval analysis of Target.RedirectCode in every function that stores it (targets the function did not create are assumed in range, by induction): at every exit and where the target joins Route.Targets the code is in {0} ∪ [300,399] on all paths, including the strconv.Atoi error edge (Atoi returns the clamped value on range errors); stored values are evaluated through parse helpers (union over their returns under the branch conditions there), local variables and integer conversions; (P1) in the region of BuildRedirectURL the $path/$host replacements derive from the request URL parameter, the strip operation (slice from len(StripPath) / strings.TrimPrefix / CutPrefix) is never applied to a value that already carries PrependPath, and a request-derived query is stored only where the template's / location's own query is known to be empty; (L1) wherever the region of Table.Lookup knows 'the location equals the request' (block or branch edge) the value handed on (returned, or carried round the host loop) is nil, and every loop edge taken with a redirect target in hand carries nil; (L2) at those places scheme, full host:port and path are all known equal; (E2) every caller of BuildRedirectURL hands it the request URL itself or a copy carrying RawPath (also through a cloning helper or a helper parameter). Not decided: the text of the Location for each template form (string contents, e.g. %2F with https://$host$path).",
 		Run:     runC13,
 		Trusted: []string{"strconv.Atoi contract (value clamped on range error)", "net/http.Redirect writes the given status and Location"},
-		Mutants: []mutant{
+		Mutants: append([]mutant{
 			{Name: "redirect built from a URL without RawPath", File: "route/table.go", Old: "\t\t\t\tredirect.BuildRedirectURL(req.URL)\n", New: "\t\t\t\tredirect.BuildRedirectURL(&url.URL{Host: req.Host, Path: req.URL.Path, RawQuery: req.URL.RawQuery})\n", Expect: "C13.E2"},
 
 			{Name: "cache redirect URL on shared target", File: "route/table.go", Old: "redirect := *target\n\t\t\t\tredirect.BuildRedirectURL(req.URL)\n\t\t\t\ttarget = &redirect", New: "target.BuildRedirectURL(req.URL)", Expect: "C13.S1"},
@@ -27,11 +28,18 @@ func init() {
 			{Name: "skipped redirect kept", File: "route/table.go", Old: "\t\t\t\t\ttarget = nil\n\t\t\t\t\tcontinue", New: "\t\t\t\t\tcontinue", Expect: "C13.L1"},
 			{Name: "self-redirect test ignores the port", File: "route/table.go", Old: "target.RedirectURL.Host == req.Host &&", New: "target.RedirectURL.Hostname() == req.URL.Hostname() &&", Expect: "C13.L2"},
 			{Name: "benign: return built URL through a local", File: "route/table.go", Old: "redirect.BuildRedirectURL(req.URL)", New: "ru := req.URL\n\t\t\t\tredirect.BuildRedirectURL(ru)", Expect: ""},
-		},
+		}, c13moreMutants...),
 	})
 }
 
 func runC13(c *Ctx) {
+	if want := os.Getenv("C13_DUMP"); want != "" { // development aid: the SSA the rules see
+		for _, f := range c.AllFns {
+			if strings.Contains(f.String(), want) {
+				f.WriteTo(os.Stderr)
+			}
+		}
+	}
 	sa := newSharedAnalysis(c)
 	n := sa.s1("C13.S1", func(f *ssa.Function, step string) bool {
 		return strings.HasPrefix(step, "route.Target.") || strings.HasPrefix(step, "route.Route.") || strings.HasPrefix(step, "route.Table")
@@ -45,111 +53,189 @@ func runC13(c *Ctx) {
 	runC13E2(c)
 }
 
-func runC13G1(c *Ctx) {
-	serve := c.method("proxy", "HTTPProxy", "ServeHTTP")
-	if !c.need("C13.G1", serve, "proxy.HTTPProxy.ServeHTTP") {
-		return
+// ---- shared recognisers of C13 (roles, not names) ---------------------------------------------------------------
+
+// c13eqFact: the fact states x == y (`==` taken, or `!=` not taken); c13neFact: it states x != y.
+func c13eqFact(f Fact) (x, y ssa.Value, ok bool) {
+	if b, isB := f.Cond.(*ssa.BinOp); isB && ((b.Op == token.EQL && f.Truth) || (b.Op == token.NEQ && !f.Truth)) {
+		return b.X, b.Y, true
 	}
-	reds := callsTo(serve, "net/http.Redirect")
-	c.atLeast("C13.G1", "http.Redirect calls in ServeHTTP", len(reds), 1)
-	sites := c.contactSites(serve)
-	denied := c.method("route", "Target", "AccessDeniedHTTP")
-	auth := c.method("route", "Target", "Authorized")
-	for _, r := range reds {
-		cc := callCommon(r)
-		// arguments: URL text from Target.RedirectURL, status from Target.RedirectCode
-		urlOK := derives(cc.Args[2], func(v ssa.Value) bool { _, ok := fieldOf(v, "route.Target", "RedirectURL"); return ok })
-		codeOK := derives(cc.Args[3], func(v ssa.Value) bool { _, ok := fieldOf(v, "route.Target", "RedirectCode"); return ok })
-		c.check("C13.G1", "proxy.(*HTTPProxy).ServeHTTP|redirect uses Target.RedirectURL and RedirectCode", r.Pos(), urlOK && codeOK,
-			"the redirect answer must carry the location built for this request (Target.RedirectURL) and the configured status (Target.RedirectCode)")
-		// guarded by RedirectCode != 0
-		guarded := false
-		for _, f := range factsAt(r.Block()) {
-			if b, ok := f.Cond.(*ssa.BinOp); ok && b.Op == token.NEQ && f.Truth {
-				if _, isF := fieldOf(b.X, "route.Target", "RedirectCode"); isF {
-					if n, ok := constInt(b.Y); ok && n == 0 {
-						guarded = true
-					}
+	return nil, nil, false
+}
+
+func c13neFact(f Fact) (x, y ssa.Value, ok bool) {
+	if b, isB := f.Cond.(*ssa.BinOp); isB && ((b.Op == token.NEQ && f.Truth) || (b.Op == token.EQL && !f.Truth)) {
+		return b.X, b.Y, true
+	}
+	return nil, nil, false
+}
+
+// c13phiFacts: what follows from "the merged boolean phi (`a && b && c` / `a || b` evaluated as a value) is truth":
+// when all incoming edges but one are the opposite constant, the remaining operand decided it, and everything known
+// where that operand was evaluated holds as well.
+func c13phiFacts(phi *ssa.Phi, truth bool, depth int) []Fact {
+	if depth > 3 || len(phi.Edges) < 2 {
+		return nil
+	}
+	k := -1
+	for i, e := range phi.Edges {
+		if b, isK := constBool(e); isK && b != truth {
+			continue
+		}
+		if k >= 0 {
+			return nil
+		}
+		k = i
+	}
+	if k < 0 {
+		return nil
+	}
+	var out []Fact
+	if _, isK := constBool(phi.Edges[k]); !isK {
+		out = append(out, Fact{phi.Edges[k], truth})
+	}
+	out = append(out, factsAt(phi.Block().Preds[k])...)
+	return c13expandFacts(out, depth+1)
+}
+
+// c13expandFacts adds, for every fact about a merged boolean, the facts that decided it.
+func c13expandFacts(facts []Fact, depth int) []Fact {
+	out := facts
+	for _, f := range facts {
+		cond, truth := f.Cond, f.Truth
+		for {
+			u, isNot := cond.(*ssa.UnOp)
+			if !isNot || u.Op != token.NOT {
+				break
+			}
+			cond, truth = u.X, !truth
+		}
+		if phi, ok := cond.(*ssa.Phi); ok {
+			out = append(out, c13phiFacts(phi, truth, depth)...)
+		}
+	}
+	return out
+}
+
+// c13factsAt: factsAt with merged booleans resolved.
+func c13factsAt(b *ssa.BasicBlock) []Fact { return c13expandFacts(factsAt(b), 0) }
+
+// c13emptyFact: the fact states that string x is empty (x == "", !(x != ""), len(x) == 0, !(len(x) != 0), !(len(x) > 0), len(x) < 1).
+func c13emptyFact(f Fact) (ssa.Value, bool) {
+	b, ok := f.Cond.(*ssa.BinOp)
+	if !ok {
+		return nil, false
+	}
+	lenOf := func(v ssa.Value) (ssa.Value, bool) {
+		if call, ok := v.(*ssa.Call); ok && calleeName(&call.Call) == "builtin.len" && len(call.Call.Args) == 1 {
+			return call.Call.Args[0], true
+		}
+		return nil, false
+	}
+	x, y := b.X, b.Y
+	op := b.Op
+	if _, isK := x.(*ssa.Const); isK { // constant on the left: mirror
+		x, y = y, x
+		switch op {
+		case token.LSS:
+			op = token.GTR
+		case token.GTR:
+			op = token.LSS
+		case token.LEQ:
+			op = token.GEQ
+		case token.GEQ:
+			op = token.LEQ
+		}
+	}
+	if s, isS := constString(y); isS && s == "" {
+		if (op == token.EQL && f.Truth) || (op == token.NEQ && !f.Truth) {
+			return x, true
+		}
+		return nil, false
+	}
+	if arg, isLen := lenOf(x); isLen {
+		n, isN := constInt(y)
+		if !isN {
+			return nil, false
+		}
+		switch {
+		case n == 0 && ((op == token.EQL && f.Truth) || (op == token.NEQ && !f.Truth) || (op == token.GTR && !f.Truth) || (op == token.LEQ && f.Truth)):
+			return arg, true
+		case n == 1 && ((op == token.LSS && f.Truth) || (op == token.GEQ && !f.Truth)):
+			return arg, true
+		}
+	}
+	return nil, false
+}
+
+// c13redirectFact: block b is only reached when some target's RedirectCode is known to be non-zero.
+func c13redirectFact(facts []Fact) bool {
+	for _, f := range facts {
+		if x, y, ok := c13neFact(f); ok {
+			if n, isN := constInt(y); isN && n == 0 && c13targetField(x, "RedirectCode") {
+				return true
+			}
+			if n, isN := constInt(x); isN && n == 0 && c13targetField(y, "RedirectCode") {
+				return true
+			}
+		}
+		if bo, ok := f.Cond.(*ssa.BinOp); ok && c13targetField(bo.X, "RedirectCode") {
+			if n, isN := constInt(bo.Y); isN {
+				if (bo.Op == token.GTR && f.Truth && n >= 0) || (bo.Op == token.GEQ && f.Truth && n >= 1) ||
+					(bo.Op == token.LEQ && !f.Truth && n >= 0) || (bo.Op == token.LSS && !f.Truth && n >= 1) {
+					return true
 				}
 			}
 		}
-		c.check("C13.G1", "proxy.(*HTTPProxy).ServeHTTP|redirect only for redirect targets", r.Pos(), guarded, "http.Redirect must be under RedirectCode != 0")
-		// behind the gates
-		gated := denied != nil && auth != nil && gateReceiver(r.Block(), denied, false, 0) != nil && gateReceiver(r.Block(), auth, true, 0) != nil
-		c.check("C13.G1", "proxy.(*HTTPProxy).ServeHTTP|redirect behind access and auth gates", r.Pos(), gated, "the redirect answer must come after both gates")
-		// no upstream contact after the redirect
-		bad := ""
-		for s, how := range sites {
-			if pathAvoiding(r, s, nil) {
-				bad = how
-			}
-		}
-		c.check("C13.G1", "proxy.(*HTTPProxy).ServeHTTP|no upstream contact after redirect", r.Pos(), bad == "",
-			"after answering with a redirect the handler must return; reachable afterwards: "+bad)
 	}
+	return false
 }
 
-func runC13C1(c *Ctx) {
-	add := c.method("route", "Route", "addTarget")
-	if !c.need("C13.C1", add, "route.Route.addTarget") {
-		return
+// c13buildFn: the method that builds the per-request location (BuildRedirectURL, or whatever stores Target.RedirectURL).
+func c13buildFn(c *Ctx) *ssa.Function {
+	if f := c.method("route", "Target", "BuildRedirectURL"); f != nil && len(f.Blocks) > 0 {
+		return f
 	}
-	targets := allocsOf(add, "route.Target")
-	if len(targets) != 1 {
-		c.undecided("C13.C1", "anchor|Target literal in addTarget", "expected exactly one route.Target allocation")
-		return
+	role := func(f *ssa.Function) bool { return fnStoresField(f, "route.Target", "RedirectURL") }
+	if f := c.methodByRole("route", "Target", "BuildRedirectURL", role); f != nil {
+		return f
 	}
-	t := targets[0]
-	fi := analyseFieldIntervals(add, t, "route.Target", "RedirectCode")
-	want := iset{{0, 0}, {300, 399}}
-	n := 0
-	// at the point the target is published into the route (store to Route.Targets) and at every return
-	eachInstr(add, func(i ssa.Instruction) {
-		isPub := false
-		if st, ok := i.(*ssa.Store); ok {
-			if _, isT := fieldOf(st.Addr, "route.Route", "Targets"); isT {
-				isPub = true
-			}
-		}
-		if !isPub {
-			return
-		}
-		n++
-		v := fi.at[i]
-		c.check("C13.C1", "route.(*Route).addTarget|RedirectCode range when the target joins the route", i.Pos(), v.subsetOf(want),
-			"Target.RedirectCode must be 0 or in [300,399] on every path; it can be "+v.String()+" here (strconv.Atoi returns the clamped value together with a range error, e.g. redirect=99999999999999999999 leaves MaxInt64; http.Redirect/WriteHeader then panics on the invalid status inside the request handler)")
-	})
-	c.atLeast("C13.C1", "stores to Route.Targets in addTarget", n, 1)
-	// the field must actually be parsed from the option (vacuity): some non-constant store exists
-	parsed := false
-	for _, st := range fieldStores(t)["RedirectCode"] {
-		if _, isK := st.Val.(*ssa.Const); !isK {
-			parsed = true
-		}
-	}
-	c.check("C13.C1", "route.(*Route).addTarget|RedirectCode parsed from the redirect option", add.Pos(), parsed, "the redirect option is no longer parsed into Target.RedirectCode")
+	return c.fnByRole("route", "BuildRedirectURL", role) // inlined into / renamed to a plain function of the package
 }
 
 func runC13P1(c *Ctx) {
-	b := c.method("route", "Target", "BuildRedirectURL")
+	b := c13buildFn(c)
 	if !c.need("C13.P1", b, "route.Target.BuildRedirectURL") {
 		return
 	}
-	var reqURL *ssa.Parameter
+	var reqParams []*ssa.Parameter
 	for _, p := range b.Params {
-		if typeStr(p.Type()) == "*net/url.URL" {
-			reqURL = p
+		if ts := typeStr(p.Type()); ts == "*net/url.URL" || ts == "*net/http.Request" {
+			reqParams = append(reqParams, p)
 		}
 	}
-	if reqURL == nil {
-		c.undecided("C13.P1", "anchor|requestURL parameter", "BuildRedirectURL has no *url.URL parameter")
+	if len(reqParams) == 0 {
+		c.undecided("C13.P1", "anchor|requestURL parameter", "BuildRedirectURL has no *url.URL (or *http.Request) parameter")
 		return
 	}
-	fromReq := func(v ssa.Value) bool { return derives(v, func(x ssa.Value) bool { return x == reqURL }) }
+	isReq := func(x ssa.Value) bool {
+		for _, p := range reqParams {
+			if x == p {
+				return true
+			}
+		}
+		return false
+	}
+	fromReq := func(v ssa.Value) bool { return derives(v, isReq) }
+	reg := c.region(b)
 	nPath, nHost := 0, 0
-	eachInstr(b, func(i ssa.Instruction) {
+	eachInstrOf(reg, func(f *ssa.Function, i ssa.Instruction) {
 		cc := callCommon(i)
-		if cc == nil || calleeName(cc) != "strings.Replace" || len(cc.Args) != 4 {
+		if cc == nil {
+			return
+		}
+		n := calleeName(cc)
+		if !(n == "strings.Replace" && len(cc.Args) == 4) && !(n == "strings.ReplaceAll" && len(cc.Args) == 3) {
 			return
 		}
 		old, _ := constString(cc.Args[1])
@@ -166,47 +252,87 @@ func runC13P1(c *Ctx) {
 	})
 	c.atLeast("C13.P1", "$path replacements", nPath, 1)
 	c.atLeast("C13.P1", "$host replacements", nHost, 1)
-	// strip before prepend: no slice (strip) is applied to a value that derives from a PrependPath concatenation
+
+	// prepend: PrependPath is put in front of a request-derived path
+	isPrependConcat := func(x ssa.Value) bool {
+		bo, ok := x.(*ssa.BinOp)
+		return ok && bo.Op == token.ADD && c13targetFieldVal(bo.X, "PrependPath")
+	}
 	nPre := 0
-	eachInstr(b, func(i ssa.Instruction) {
+	eachInstrOf(reg, func(f *ssa.Function, i ssa.Instruction) {
 		bo, ok := i.(*ssa.BinOp)
-		if !ok || bo.Op != token.ADD {
-			return
-		}
-		if _, isPre := fieldOf(bo.X, "route.Target", "PrependPath"); !isPre {
+		if !ok || !isPrependConcat(bo) {
 			return
 		}
 		nPre++
-		// the prepended operand must be request-derived
 		c.check("C13.P1", "route.(*Target).BuildRedirectURL|prepend applied to the request path", bo.Pos(), fromReq(bo.Y), "PrependPath must be put in front of this request's (stripped) path")
-		bad := false
-		eachInstr(b, func(j ssa.Instruction) {
-			if sl, ok := j.(*ssa.Slice); ok {
-				if derives(sl.X, func(x ssa.Value) bool { return x == bo }) {
-					bad = true
-				}
-			}
-		})
-		c.check("C13.P1", "route.(*Target).BuildRedirectURL|strip before prepend", bo.Pos(), !bad, "the strip prefix must be removed before the prepend path is added (documented order)")
 	})
 	c.atLeast("C13.P1", "PrependPath concatenations", nPre, 1)
-	// query: store of a request-derived RawQuery only under `template query == ""`
+	// strip before prepend: the strip operation (a slice from len(StripPath), or strings.TrimPrefix/CutPrefix with
+	// StripPath) is never applied to a value that already carries the prepend path
+	isStripPath := func(x ssa.Value) bool { return c13targetFieldVal(x, "StripPath") }
+	nStrip := 0
+	eachInstrOf(reg, func(f *ssa.Function, i ssa.Instruction) {
+		var operand ssa.Value
+		switch x := i.(type) {
+		case *ssa.Slice:
+			if x.Low != nil && derives(x.Low, isStripPath) {
+				operand = x.X
+			}
+		case *ssa.Call:
+			n := calleeName(&x.Call)
+			if (n == "strings.TrimPrefix" || n == "strings.CutPrefix") && len(x.Call.Args) == 2 && derives(x.Call.Args[1], isStripPath) {
+				operand = x.Call.Args[0]
+			}
+		}
+		if operand == nil {
+			return
+		}
+		nStrip++
+		c.check("C13.P1", "route.(*Target).BuildRedirectURL|strip before prepend", i.Pos(), !derives(operand, isPrependConcat),
+			"the strip prefix must be removed before the prepend path is added (documented order)")
+		c.check("C13.P1", "route.(*Target).BuildRedirectURL|strip applied to the request path", i.Pos(), fromReq(operand),
+			"StripPath must be removed from this request's path")
+	})
+	c.atLeast("C13.P1", "strip operations (slice from len(StripPath) / strings.TrimPrefix)", nStrip, 1)
+
+	// query: a request-derived RawQuery reaches the location only where the template's own query is known to be empty
+	isTemplate := func(x ssa.Value) bool { return c13targetField(x, "URL") || c13targetField(x, "RedirectURL") }
+	templateQueryEmpty := func(blk *ssa.BasicBlock, loc ssa.Value) bool {
+		for _, f := range c13factsAt(blk) {
+			x, ok := c13emptyFact(f)
+			if !ok {
+				continue
+			}
+			base, isQ := fieldOf(x, "url.URL", "RawQuery")
+			if !isQ {
+				continue
+			}
+			// the query of the location being built (same object as the one stored to), or of the target's template
+			if (loc != nil && (base == loc || accessPath(base) == accessPath(loc))) || (!isReq(base) && derives(base, isTemplate)) {
+				return true
+			}
+		}
+		return false
+	}
 	nQ := 0
-	eachInstr(b, func(i ssa.Instruction) {
+	eachInstrOf(reg, func(f *ssa.Function, i ssa.Instruction) {
 		st, ok := i.(*ssa.Store)
 		if !ok {
 			return
 		}
 		fa, ok := st.Addr.(*ssa.FieldAddr)
-		if !ok || fieldName(fa.X.Type(), fa.Field) != "RawQuery" || !fromReq(st.Val) {
+		if !ok || !namedIs(fa.X.Type(), "url.URL") || fieldName(fa.X.Type(), fa.Field) != "RawQuery" || !fromReq(st.Val) {
 			return
 		}
 		nQ++
-		guard := false
-		for _, f := range factsAt(st.Block()) {
-			if bo, ok := f.Cond.(*ssa.BinOp); ok && bo.Op == token.EQL && f.Truth {
-				if s, isS := constString(bo.Y); isS && s == "" && strings.HasSuffix(accessPath(bo.X), "RedirectURL.RawQuery") {
-					guard = true
+		guard := templateQueryEmpty(st.Block(), fa.X)
+		if phi, isPhi := st.Val.(*ssa.Phi); isPhi && !guard {
+			// `q := template query; if q == "" { q = request query }; u.RawQuery = q`: every request-derived edge is guarded
+			guard = true
+			for k, e := range phi.Edges {
+				if fromReq(e) && !templateQueryEmpty(phi.Block().Preds[k], nil) {
+					guard = false
 				}
 			}
 		}
@@ -216,36 +342,343 @@ func runC13P1(c *Ctx) {
 	c.atLeast("C13.P1", "request-derived RawQuery stores", nQ, 1)
 }
 
+// c13onRedirectURL: v is read from the location built for the request (a field of, or a url.URL method on, Target.RedirectURL).
+func c13onRedirectURL(v ssa.Value) bool {
+	isRU := func(x ssa.Value) bool { return c13targetField(x, "RedirectURL") }
+	if call, ok := v.(*ssa.Call); ok && !call.Call.IsInvoke() && strings.HasPrefix(calleeName(&call.Call), "(*net/url.URL).") && len(call.Call.Args) > 0 {
+		return derives(call.Call.Args[0], isRU)
+	}
+	return derives(v, isRU)
+}
+
+// c13selfFacts: what block b knows about "the location equals the request": which of scheme / host:port / path are
+// known equal, whether any comparison of the location is known equal (any) or known different (neg).
+type c13self struct{ scheme, host, path, any, neg bool }
+
+// c13args: a helper's parameter stands for what its static callers pass.
+func c13args(v ssa.Value, depth int) []ssa.Value {
+	p, ok := v.(*ssa.Parameter)
+	if !ok || depth > 2 || p.Parent() == nil {
+		return []ssa.Value{v}
+	}
+	fn := p.Parent()
+	sites := gSites[fn]
+	if len(sites) == 0 || !onlyStaticallyCalled(fn) {
+		return []ssa.Value{v}
+	}
+	idx := -1
+	for k, q := range fn.Params {
+		if q == p {
+			idx = k
+		}
+	}
+	var out []ssa.Value
+	for _, s := range sites {
+		if cc := s.Common(); idx >= 0 && idx < len(cc.Args) {
+			out = append(out, c13args(cc.Args[idx], depth+1)...)
+		}
+	}
+	if len(out) == 0 {
+		return []ssa.Value{v}
+	}
+	return out
+}
+
+func c13allArgs(v ssa.Value, pred func(ssa.Value) bool) bool {
+	for _, a := range c13args(v, 0) {
+		if !pred(a) {
+			return false
+		}
+	}
+	return true
+}
+
+// c13selfFactsIn prepares the recogniser for a region (the functions reachable from Table.Lookup).
+func c13selfFactsIn(reg []*ssa.Function) func(facts []Fact) c13self {
+	fx := func(v ssa.Value, typ, field string) bool { _, ok := fieldOf(v, typ, field); return ok }
+	// req.URL.Host stands for req.Host once the region has assigned `req.URL.Host = req.Host`
+	urlHostIsReqHost := false
+	eachInstrOf(reg, func(f *ssa.Function, i ssa.Instruction) {
+		if st, ok := i.(*ssa.Store); ok && fx(st.Addr, "url.URL", "Host") && c13allArgs(st.Val, func(a ssa.Value) bool { return fx(a, "http.Request", "Host") }) {
+			if derives(st.Addr, func(x ssa.Value) bool { return fx(x, "http.Request", "URL") }) {
+				urlHostIsReqHost = true
+			}
+		}
+	})
+	isReqHost := func(v ssa.Value) bool {
+		return c13allArgs(v, func(a ssa.Value) bool {
+			if fx(a, "http.Request", "Host") {
+				return true
+			}
+			return urlHostIsReqHost && fx(a, "url.URL", "Host") && !c13onRedirectURL(a) && derives(a, func(x ssa.Value) bool { return fx(x, "http.Request", "URL") })
+		})
+	}
+	isReqPath := func(v ssa.Value) bool {
+		return c13allArgs(v, func(a ssa.Value) bool { return fx(a, "url.URL", "Path") && !c13onRedirectURL(a) })
+	}
+	return func(facts []Fact) c13self {
+		var r c13self
+		for _, ft := range facts {
+			if x, y, ok := c13neFact(ft); ok && !isNilConst(x) && !isNilConst(y) && (c13onRedirectURL(x) || c13onRedirectURL(y)) {
+				r.neg = true
+				continue
+			}
+			x, y, ok := c13eqFact(ft)
+			if !ok || isNilConst(x) || isNilConst(y) {
+				continue
+			}
+			if !c13onRedirectURL(x) {
+				x, y = y, x
+			}
+			if !c13onRedirectURL(x) {
+				continue
+			}
+			r.any = true
+			switch {
+			case fx(x, "url.URL", "Scheme"):
+				r.scheme = true
+			case fx(x, "url.URL", "Host") && isReqHost(y):
+				r.host = true
+			case fx(x, "url.URL", "Path") && isReqPath(y):
+				r.path = true
+			}
+		}
+		return r
+	}
+}
+
+// c13skipOutcome: where a block that knows "self-redirect" hands its result on. It follows unconditional jumps and
+// reports the value that reaches the function's return, or the loop-carried *Target variables when the block continues
+// a loop. ok=false when the block branches again (it is not the end of the comparison chain).
+type c13outcome struct {
+	at         ssa.Instruction
+	vals       []ssa.Value // values that must be nil
+	isLoop     bool
+	from, head *ssa.BasicBlock // isLoop: the back edge
+}
+
+func c13skipOutcome(b, first *ssa.BasicBlock) (c13outcome, bool) {
+	env := map[*ssa.Phi]ssa.Value{}
+	resolve := func(v ssa.Value) ssa.Value {
+		if phi, ok := v.(*ssa.Phi); ok {
+			if r, ok := env[phi]; ok {
+				return r
+			}
+		}
+		return v
+	}
+	// pass from cur to next: bind next's phis; a back edge ends the walk
+	pass := func(cur, next *ssa.BasicBlock, at ssa.Instruction) (c13outcome, bool) {
+		idx := -1
+		for k, p := range next.Preds {
+			if p == cur {
+				idx = k
+			}
+		}
+		var phis []*ssa.Phi
+		newEnv := map[*ssa.Phi]ssa.Value{}
+		for _, in := range next.Instrs {
+			if phi, ok := in.(*ssa.Phi); ok && idx >= 0 {
+				newEnv[phi] = resolve(phi.Edges[idx])
+				phis = append(phis, phi)
+			}
+		}
+		for k, v := range newEnv {
+			env[k] = v
+		}
+		if next.Dominates(b) { // back edge: the loop goes on with the next candidate
+			var vals []ssa.Value
+			var pos ssa.Instruction = at
+			for _, phi := range phis {
+				if namedIs(phi.Type(), "route.Target") {
+					vals = append(vals, env[phi])
+					pos = phi
+				}
+			}
+			return c13outcome{at: pos, vals: vals, isLoop: true, from: cur, head: next}, true
+		}
+		return c13outcome{}, false
+	}
+	cur := b
+	if first != nil {
+		if oc, end := pass(b, first, b.Instrs[len(b.Instrs)-1]); end {
+			return oc, len(oc.vals) > 0
+		}
+		cur = first
+	}
+	for step := 0; step < 8; step++ {
+		if len(cur.Instrs) == 0 {
+			return c13outcome{}, false
+		}
+		switch term := cur.Instrs[len(cur.Instrs)-1].(type) {
+		case *ssa.Return:
+			var vals []ssa.Value
+			for _, r := range term.Results {
+				if namedIs(r.Type(), "route.Target") {
+					vals = append(vals, resolve(r))
+				}
+			}
+			return c13outcome{at: term, vals: vals}, len(vals) > 0
+		case *ssa.Jump:
+			next := cur.Succs[0]
+			if oc, end := pass(cur, next, term); end {
+				return oc, len(oc.vals) > 0
+			}
+			cur = next
+		default:
+			return c13outcome{}, false
+		}
+	}
+	return c13outcome{}, false
+}
+
+// c13skipPoint: a place that knows "the location points back at the request" and hands its result on.
+type c13skipPoint struct {
+	sf     c13self
+	oc     c13outcome
+	allNil bool
+}
+
+// c13skipPoints finds them in a region: blocks whose facts say so, and branch edges into a merge block (a guard
+// whose body was empty, `if same { continue }`) whose edge condition says so.
+func c13skipPoints(reg []*ssa.Function) []c13skipPoint {
+	selfFacts := c13selfFactsIn(reg)
+	var out []c13skipPoint
+	for _, f := range reg {
+		for _, b := range f.Blocks {
+			if len(b.Instrs) == 0 {
+				continue
+			}
+			if _, isIf := b.Instrs[len(b.Instrs)-1].(*ssa.If); isIf {
+				for _, s := range b.Succs {
+					if len(s.Preds) < 2 || b.Succs[0] == b.Succs[1] {
+						continue
+					}
+					facts := c13edgeFacts(b, s)
+					sf := selfFacts(facts)
+					if !sf.any || sf.neg {
+						continue
+					}
+					oc, ok := c13skipOutcome(b, s)
+					if !ok {
+						continue
+					}
+					allNil := true
+					for _, v := range oc.vals {
+						if !c13nilOnEdge(v, b, s) {
+							allNil = false
+						}
+					}
+					out = append(out, c13skipPoint{sf, oc, allNil})
+				}
+				continue
+			}
+			sf := selfFacts(c13factsAt(b))
+			if !sf.any || sf.neg {
+				continue
+			}
+			oc, ok := c13skipOutcome(b, nil)
+			if !ok {
+				continue
+			}
+			allNil := true
+			for _, v := range oc.vals {
+				if !c13nilAt(v, b) {
+					allNil = false
+				}
+			}
+			out = append(out, c13skipPoint{sf, oc, allNil})
+		}
+	}
+	return out
+}
+
+func c13nilAt(v ssa.Value, b *ssa.BasicBlock) bool {
+	if isNilConst(v) {
+		return true
+	}
+	for _, f := range c13factsAt(b) {
+		if nn, ok := nilFact(f, sameVal(v)); ok && !nn {
+			return true
+		}
+	}
+	return false
+}
+
+// c13edgeFacts: what is known on the edge from -> to: the facts at from plus the branch condition of the edge itself.
+func c13edgeFacts(from, to *ssa.BasicBlock) []Fact {
+	out := factsAt(from)
+	if len(from.Instrs) > 0 && len(from.Succs) == 2 && from.Succs[0] != from.Succs[1] {
+		if iff, ok := from.Instrs[len(from.Instrs)-1].(*ssa.If); ok {
+			cond, truth := iff.Cond, from.Succs[0] == to
+			for {
+				u, isNot := cond.(*ssa.UnOp)
+				if !isNot || u.Op != token.NOT {
+					break
+				}
+				cond, truth = u.X, !truth
+			}
+			out = append(out, Fact{cond, truth})
+		}
+	}
+	return c13expandFacts(out, 0)
+}
+
+// c13nilOnEdge: v is nil whenever control passes from -> to.
+func c13nilOnEdge(v ssa.Value, from, to *ssa.BasicBlock) bool {
+	if isNilConst(v) {
+		return true
+	}
+	for _, f := range c13edgeFacts(from, to) {
+		if nn, ok := nilFact(f, sameVal(v)); ok && !nn {
+			return true
+		}
+	}
+	return false
+}
+
+const c13skipDetail = "on the self-redirect skip edge (continue with the next host) the result variable must be cleared; otherwise, when no later host matches (always for a host-less redirect route, \"\" is tried last), the skipped redirect is returned and the client is redirected to the same URL forever"
+
 func runC13L1(c *Ctx) {
 	lk := c.method("route", "Table", "Lookup")
 	if !c.need("C13.L1", lk, "route.Table.Lookup") {
 		return
 	}
-	redirectFact := func(b *ssa.BasicBlock) bool {
-		for _, f := range factsAt(b) {
-			if bo, ok := f.Cond.(*ssa.BinOp); ok && bo.Op == token.NEQ && f.Truth {
-				if _, isF := fieldOf(bo.X, "route.Target", "RedirectCode"); isF {
-					return true
+	reg := c.region(lk)
+	n := 0
+	type pk struct {
+		b   *ssa.BasicBlock
+		phi *ssa.Phi
+	}
+	done := map[pk]bool{}
+	// (i) the place that knows "the location points back at the request" hands on nil
+	for _, sp := range c13skipPoints(reg) {
+		n++
+		if sp.oc.isLoop {
+			for _, in := range sp.oc.head.Instrs {
+				if phi, isPhi := in.(*ssa.Phi); isPhi {
+					done[pk{sp.oc.from, phi}] = true
 				}
 			}
 		}
-		return false
+		c.check("C13.L1", "(route.Table).Lookup|skipped self-redirect leaves no result", sp.oc.at.Pos(), sp.allNil, c13skipDetail)
 	}
-	n := 0
-	for _, l := range loopsOf(lk) {
-		for _, in := range l.Head.Instrs {
-			phi, ok := in.(*ssa.Phi)
-			if !ok || !namedIs(phi.Type(), "route.Target") {
-				continue
-			}
-			for k, e := range phi.Edges {
-				pred := l.Head.Preds[k]
-				if !l.Body[pred] || !redirectFact(pred) {
+	// (ii) an iteration that found a redirect target and goes on with the next host carries no target along
+	for _, f := range reg {
+		for _, l := range loopsOf(f) {
+			for _, in := range l.Head.Instrs {
+				phi, ok := in.(*ssa.Phi)
+				if !ok || !namedIs(phi.Type(), "route.Target") {
 					continue
 				}
-				n++
-				c.check("C13.L1", "(route.Table).Lookup|skipped self-redirect leaves no result", pred.Instrs[len(pred.Instrs)-1].Pos(), isNilConst(e),
-					"on the self-redirect skip edge (continue with the next host) the result variable must be cleared; otherwise, when no later host matches (always for a host-less redirect route, \"\" is tried last), the skipped redirect is returned and the client is redirected to the same URL forever")
+				for k, e := range phi.Edges {
+					pred := l.Head.Preds[k]
+					if !l.Body[pred] || !c13redirectFact(c13edgeFacts(pred, l.Head)) || done[pk{pred, phi}] {
+						continue
+					}
+					n++
+					c.check("C13.L1", "(route.Table).Lookup|skipped self-redirect leaves no result", phi.Pos(), c13nilOnEdge(e, pred, l.Head), c13skipDetail)
+				}
 			}
 		}
 	}
